@@ -18,6 +18,7 @@ import (
 	"fmt"
 	"strconv"
 	"sync"
+	"sync/atomic"
 	"testing"
 	"time"
 
@@ -102,6 +103,7 @@ type vE2E struct {
 	final    map[uint64]bool
 	handed   map[uint64]int
 	seed     uint64
+	early    string
 }
 
 // outcome of the k-th hand-off of id: 0 ok, 1 permanent failure, 2 shutdown error (deterministic in (seed, id, k))
@@ -122,13 +124,31 @@ func (e *vE2E) outcome(id uint64, k int) int {
 
 // one incarnation; drain = no death, every hand-off succeeds, runs until everything queued was dispatched
 func (e *vE2E) incarnation(capacity int64, consumers int, dieAt int, offers []uint64, drain bool) (calls int, died bool, hung string) {
+	return e.incarnationB(capacity, consumers, dieAt, offers, drain, false)
+}
+
+// blockOne: the first export call blocks until Shutdown has been called and given time to return; Shutdown must
+// NOT return while an export call (and the completion that follows it) is still in progress
+func (e *vE2E) incarnationB(capacity int64, consumers int, dieAt int, offers []uint64, drain bool, blockOne bool) (calls int, died bool, hung string) {
 	cl := &vSafeClient{m: e.m, dieAt: dieAt}
+	blocked, release := make(chan struct{}), make(chan struct{})
+	var blockOnce sync.Once
+	inExport := int32(0)
 	pq := newPersistentQueue[uint64](persistentQueueSettings[uint64]{
 		sizer: request.RequestsSizer[uint64]{}, capacity: capacity, blockOnOverflow: false, signal: pipeline.SignalTraces,
 		storageID: component.ID{}, encoding: vEnc{}, id: component.NewID(component.MustNewType("x")),
 		telemetry: componenttest.NewNopTelemetrySettings(),
 	}).(*persistentQueue[uint64])
 	export := func(_ context.Context, id uint64) error {
+		atomic.AddInt32(&inExport, 1)
+		defer atomic.AddInt32(&inExport, -1)
+		if blockOne {
+			first := false
+			blockOnce.Do(func() { first = true; close(blocked) })
+			if first {
+				<-release
+			}
+		}
 		e.mu.Lock()
 		defer e.mu.Unlock()
 		if cl.isDead() {
@@ -185,12 +205,43 @@ func (e *vE2E) incarnation(capacity int64, consumers int, dieAt int, offers []ui
 			time.Sleep(200 * time.Microsecond)
 		}
 	}
+	waitBlocked := false
+	if blockOne && len(offers) > 0 {
+		select {
+		case <-blocked:
+			waitBlocked = true
+		case <-time.After(20 * time.Second):
+		}
+	}
 	done := make(chan error, 1)
 	go func() { done <- q.Shutdown(context.Background()) }()
+	if waitBlocked {
+		// an export call is in progress and stays so: a Shutdown that returns now would leave a consumer running
+		// that later completes the hand-off on storage contents a new incarnation may already own
+		select {
+		case err := <-done:
+			done <- err
+			e.early = fmt.Sprintf("Shutdown returned while %d export call(s) were in progress", atomic.LoadInt32(&inExport))
+		case <-time.After(30 * time.Millisecond):
+		}
+	}
+	select {
+	case <-release:
+	default:
+		close(release)
+	}
 	select {
 	case <-done:
 	case <-time.After(60 * time.Second):
 		return cl.calls, cl.isDead(), "Shutdown did not return within 60 s"
+	}
+	if e.early != "" {
+		// wait for the zombie consumers before the next incarnation touches the storage
+		deadline := time.Now().Add(10 * time.Second)
+		for atomic.LoadInt32(&inExport) != 0 && time.Now().Before(deadline) {
+			time.Sleep(time.Millisecond)
+		}
+		time.Sleep(5 * time.Millisecond)
 	}
 	return cl.calls, cl.isDead(), hung
 }
@@ -247,9 +298,17 @@ func TestVerifC01E2E(t *testing.T) {
 			if rng.Intn(4) != 0 {
 				dieAt = 1 + rng.Intn(3*len(offers)+8)
 			}
-			calls, died, hung := e.incarnation(capacity, consumers, dieAt, offers, false)
+			blockOne := dieAt == 0 && rng.Intn(3) == 0
+			calls, died, hung := e.incarnationB(capacity, consumers, dieAt, offers, false, blockOne)
 			if hung != "" {
 				out.Oracle("e2e-hang", term, hung)
+			}
+			if blockOne {
+				out.Stat("e2e_shutdown_with_export_in_progress", 1)
+			}
+			if e.early != "" {
+				out.Oracle("e2e-shutdown-returns-with-export-in-progress", term, e.early)
+				e.early = ""
 			}
 			if died {
 				deaths++
